@@ -168,11 +168,23 @@ def gen_case(r, idx, profile):
                 continue
             seen.add((c, n))
             predef.append((c, i, n))
+    cid = r.choice([b'c1', b'c1', b'c2', b'c3'])
+    if profile == 'predef':
+        # routing of predefined IDs: a client-specific entry and a "*" entry share an ID (the "*" one is
+        # shadowed for this client), plus visible "*" entries and entries of other clients
+        ns = list(PRENAMES[:4])
+        r.shuffle(ns)
+        i0 = r.choice([1, 2, 3])
+        predef = [(cid, i0, ns[0]), (b'*', i0, ns[1])]
+        if r.random() < 0.7:
+            predef.append((b'*', i0 + 1, ns[2]))
+        if r.random() < 0.5:
+            predef.append((r.choice([c for c in CLIENTS if c not in (cid, b'*')] or [b'c9']), r.choice([i0, i0 + 2]), ns[3]))
+        r.shuffle(predef)
     idrange = None
     if profile == 'ids' or r.random() < 0.12:
         lo = r.choice([1, 1, 2, 65533])
         idrange = (lo, min(65534, lo + r.choice([0, 1, 2, 4])))
-    cid = r.choice([b'c1', b'c1', b'c2', b'c3'])
     hdrkv = "auth=%d" % authon
     if creds:
         hdrkv += " user=%s pass=%s" % (H(b'gwu'), r.choice([H(b'gwp'), '-']))
@@ -329,7 +341,9 @@ def gen_case(r, idx, profile):
     def broker_publish():
         qos = r.choice([0, 0, 1, 1, 2])
         v = r.random()
-        if v < 0.3 and g.reg:
+        if profile == 'predef' and allpre and v < 0.7:
+            name = r.choice(allpre)
+        elif v < 0.3 and g.reg:
             name = r.choice(list(g.reg))
         elif v < 0.45:
             name = r.choice([b'ab', b'zz', b'+a', b'\xc3\xa9', b'\xff\x80'])
